@@ -6,9 +6,19 @@
 set -u
 patch="$(readlink -f "$1")"; id="$2"; tier="${3:-quick}"
 export GOFLAGS=-mod=mod GOPROXY=off GOSUMDB=off GOTOOLCHAIN=local GOCACHE=/verif/.cache/go-build CGO_ENABLED=1
-W=$(mktemp -d /tmp/fxmc-wt-XXXXXX)
+# a small pool of fixed paths (slots): the Go build cache keys fx-core's packages by directory, so fresh temporary
+# directories would recompile and re-cache the whole repository for every run
+mkdir -p /tmp/fxmc-slots
+W=""
+for n in 1 2 3 4 5 6; do
+  exec {lockfd}>/tmp/fxmc-slots/$n.lock
+  if flock -n $lockfd; then W=/tmp/fxmc-slots/$n; break; fi
+  exec {lockfd}>&-
+done
+if [ -z "$W" ]; then exec {lockfd}>/tmp/fxmc-slots/1.lock; flock $lockfd; W=/tmp/fxmc-slots/1; fi
 cleanup() { git -C /repo worktree remove --force "$W/repo" >/dev/null 2>&1; rm -rf "$W"; git -C /repo worktree prune; }
 trap cleanup EXIT
+git -C /repo worktree remove --force "$W/repo" >/dev/null 2>&1; rm -rf "$W"; git -C /repo worktree prune; mkdir -p "$W"
 git -C /repo worktree add -q --detach "$W/repo" HEAD || { echo "cannot create worktree"; exit 3; }
 if [ "$patch" != "/dev/null" ]; then
   git -C "$W/repo" apply "$patch" || { echo "patch does not apply"; echo "exit=3"; exit 3; }
